@@ -120,3 +120,52 @@ def GroupingWithMixedRepeatability(payload):
             if len(flags) > 1:
                 return True
     return False
+
+
+@trigger
+def AllSourcesConditional(payload):
+    """Some connection choice has no permanent source connector (its choice node can disappear, leaving targets
+    without any connection choice)."""
+    g = _g(payload)
+    perm = set(g.get('start', []))
+    while True:
+        T = set(perm)
+        for s, t in g.get('der', []):
+            if s in perm:
+                T.add(t)
+        if T == perm:
+            break
+        perm = T
+    return any(not (set(c['src']) & perm) for c in g.get('cc', []))
+
+
+@trigger
+def NestedChoiceWithIncompatibility(payload):
+    """An incompatibility pair exists and some selection choice originates below an option of another choice."""
+    g = _g(payload)
+    if not g.get('inc'):
+        return False
+    for c in g.get('ch', []):
+        below = _potential_from(g, c['opts'])
+        if any(c2 is not c and c2['origin'] in below for c2 in g['ch']):
+            return True
+    return False
+
+
+@trigger
+def GroupingWithConditionalMember(payload):
+    """A grouping connector with a member connector that is not permanent."""
+    g = _g(payload)
+    perm = set(g.get('start', []))
+    while True:
+        T = set(perm)
+        for s, t in g.get('der', []):
+            if s in perm:
+                T.add(t)
+        if T == perm:
+            break
+        perm = T
+    for nd in g.get('nodes', []):
+        if nd['t'] == 'grp' and any(m not in perm for m in nd['members']):
+            return True
+    return False
